@@ -388,6 +388,16 @@ def run(seed, tier, replay=None):
         ys, ws = gen_emp(rng)
         if all(abs(v) != INF for v in ys):
             run_oracle("e", (ys, ws), n_or, "routine")
+    # every scale: the same family at tiny and huge absolute scales (absolute thresholds on o or b-a show only there), and a = b with tiny o
+    for _ in range(3 if replay is None else 0):
+        c, convex = rng.randint(1, 10), rng.random() < 0.5
+        w = 10.0 ** rng.choice([rng.uniform(-9, -6), rng.uniform(-9, -6), rng.uniform(6, 9)])
+        sfac = rng.choice([1e-3, 0.1, 1.0, 10.0])
+        a = w * rng.choice([0.0, -1.0, 2.5])
+        run_oracle("n", (a, a + w, c, sfac * w, convex), n_or, "routine: extreme absolute scale")
+    if replay is None:
+        a0 = rng.choice([0.0, 1.0, -2.5])
+        run_oracle("n", (a0, a0, rng.randint(1, 10), 10.0 ** rng.uniform(-9, -6), rng.random() < 0.5), n_or, "routine: a = b with tiny noise")
     seen = set()
     for kind, params in suspects:
         key = repr((kind, params))
@@ -397,7 +407,21 @@ def run(seed, tier, replay=None):
         k2 = {"w": "e", "u": "e"}.get(kind, kind)
         if k2 == "e" and any(abs(v) == INF for v in params[0]):
             continue
-        run_oracle(k2, params, 200000, "the deterministic tie to the model broke for this setting")
+        if run_oracle(k2, params, 200000, "the deterministic tie to the model broke for this setting") and k2 == "n" and len(seen) <= 3:
+            # failing-input search, second stage: the same (c, shape) on other members of the location-scale family and other noise
+            # ratios (an absolute threshold on o or on b-a manifests only at some absolute scales)
+            a_, b_, c_, o_, cv_ = params
+            found = False
+            for w2 in (1e-8, 1e-5, 1e-2, 1e4):
+                for s2 in (1e-3, 0.1, 1.0, 10.0):
+                    if found:
+                        break
+                    found = not run_oracle("n", (0.0, w2, c_, s2 * w2, cv_), 20000, "scale image of a setting whose deterministic tie broke")
+            if not found:
+                for o2 in (1e-9, 1e-7, 1e-4):
+                    if found:
+                        break
+                    found = not run_oracle("n", (a_, a_, c_, o2, cv_), 20000, "a = b image of a setting whose deterministic tie broke")
 
     if np.random.get_state()[1].tobytes() != legacy0:
         rep.violate(what="sample() changed numpy's legacy global random state", input={}, call="sample")
